@@ -71,7 +71,9 @@ REQUIRED_THEOREMS = ["peer_session_functional_injective", "one_new_one_del_per_s
                      "call_home_takes_one_reference", "end_call_home_frees_and_unlinks", "client_free_releases_and_unlinks",
                      "release_frees_only_unreferenced_client_sessions", "client_session_survives_pass",
                      "last_release_frees_client_session", "release_keeps_referenced_session", "early_release_keeps_session",
-                     "end_call_home_is_release"]
+                     "end_call_home_is_release",
+                     "client_session_in_table_is_referenced", "client_invariant_step",
+                     "unreferenced_session_is_server_session", "own_client_session_outside_peer_map"]
 RULE = ("one line = one whole history on a fresh real server context with two UDP endpoints and one TCP endpoint: requests from 1..50 peers "
         "(peers P and P+25 share the remote address/port and differ in the local port only; groups share the remote IP or the "
         "remote port) and, in about a third of the histories, 1..4 stream peers (connect + CSM, whole requests / observe / async / "
@@ -93,7 +95,9 @@ RULE = ("one line = one whole history on a fresh real server context with two UD
         "reference/release, call home (coap_session_set_type_client on a peer's session after a request / observation / async entry, then more "
         "requests, notifications, references, time beyond the session timeout, idle-limit pressure, disconnect, the other holders letting go, "
         "coap_session_release of the call-home reference, the peer talking again, teardown with the call-home session alive), session disconnect, resource deletion (also while dirty), max_idle_sessions / session_timeout settings, virtual-time jumps on both sides of every timeout "
-        "(retransmission deadlines, session_timeout-1/0/+1), I/O steps, context teardown at any point (always at the end); "
+        "(retransmission deadlines, session_timeout-1/0/+1), I/O steps, in about a fifth of the histories 1..3 client sessions proper "
+        "(coap_new_client_session on the SAME context + 0..2 coap_session_reference, kept by the application until coap_free_context: "
+        "lifetime only, round R12d), context teardown at any point (always at the end); "
         "non-trivial = distinct history that created at least one session and has at least 4 events")
 TRUSTED_BASE = ["Lean 4.33 kernel; axioms allowed: propext, Classical.choice, Quot.sound (audited per theorem each run)",
                 "harness/sessions.c on sim_core.h (virtual clock, scripted datagram network; for stream peers the interposed socket shims "
@@ -399,6 +403,12 @@ def gen_history(rng, big=False):
         else:
             toks.append("F")
             break
+    # round R12d: in about a fifth of the histories the application also opens 1..3 client sessions on the SAME context
+    # (coap_new_client_session, K extra references each) anywhere in the history and keeps them until coap_free_context
+    if rng.random() < 0.2:
+        for _ in range(rng.choice([1, 1, 2, 3])):
+            stop = toks.index("F") if "F" in toks else len(toks)
+            toks.insert(rng.randrange(stop + 1), "w%d" % rng.choice([0, 0, 1, 1, 2]))
     return "sess " + " ".join(toks)
 
 
@@ -477,9 +487,20 @@ def oracle(inp, impl):
                          # call-home reference it still holds
     taken = set()        # live sessions that have been taken over (type CLIENT from then on, whoever still refers to them)
     seen_handed = set()  # sessions that were freed as CLIENT sessions: no session-deleted event is due
+    prev_lv0 = 0
     for k, (tok, outcome, evs, refs, idle, lv, clock, dq, cl) in enumerate(segs):
         c = tok[0]
         final = c == "F"
+        if c == "w" and outcome == "ok":
+            # round R12d: coap_new_client_session on the same context: ONE new session object per call (also to the same peer),
+            # no session-new / session-deleted event, never in an endpoint's table (the rows of the tables are unchanged)
+            if evs:
+                return "coap_new_client_session raised server-session events %s (event %d, %s)" % (evs, k, tok)
+            if lv[0] != prev_lv0 + 1:
+                return "coap_new_client_session: %d session objects allocated before, %d after (event %d, %s)" % (prev_lv0, lv[0], k, tok)
+            if refs != prev_refs or idle != (segs[k - 1][4] if k else (0, 0, 0)):
+                return "coap_new_client_session changed the endpoints' session tables (event %d, %s)" % (k, tok)
+        prev_lv0 = lv[0]
         if c == "T": now += int(tok[1:])
         elif c == "s": timeout = int(tok[1:]) or 300
         elif c == "m": max_idle = int(tok[1:])
@@ -549,7 +570,7 @@ def oracle(inp, impl):
                 if c == "j" and outcome == "ok" and idx == h_idx and prev_refs.get(idx, (None, 0))[0] != 1:
                     return "client session %s freed by coap_session_release while its reference count was %s (event %d, %s)" % (
                         idx, prev_refs.get(idx, (None, 0))[0], k, tok)
-                if c in "T" or c in "sm" or c == "c" or c == "h" or c == "+":
+                if c in "T" or c in "sm" or c == "c" or c == "h" or c == "+" or c == "w":
                     return "client session %s freed by an event that releases nothing (event %d, %s)" % (idx, k, tok)
                 seen_handed.add(idx); homed.discard(idx); taken.discard(idx)
                 pp = live.pop(idx)
